@@ -10,6 +10,7 @@ mod c06;
 mod c08;
 mod c10;
 mod c11;
+mod c14;
 mod c15;
 mod c16;
 mod c17;
@@ -55,6 +56,7 @@ fn main() {
                 "C10" => c10::search(obl),
                 "C11" => c11::search(obl),
                 "C15" => c15::search(obl),
+                "C14" => c14::search(obl),
                 _ => { eprintln!("no witness search for {prop}"); std::process::exit(2) }
             };
             if found.is_empty() { println!("NO-WITNESS"); }
